@@ -202,6 +202,9 @@ pub enum SpecErr {
     InvalidOffset(u16),
     BadDataLength(u16),
     EmptyDataPayload,
+    /// A crate error variant that did not exist when the model was written.
+    /// The reference decoder never produces it, so it equals no expectation.
+    Unmodelled,
 }
 
 #[derive(Clone, Copy, Debug, PartialEq, Eq, Serialize, Deserialize)]
